@@ -378,9 +378,10 @@ func runC20(c *runCtx) error {
 		scripts := map[string]string{}
 		for k := 0; k < nh; k++ {
 			exit := 10 + k
-			script := fmt.Sprintf("return %d", exit)
+			// every hook runs in a sandbox of its own: a global set by one hook is not seen by the next
+			script := fmt.Sprintf("if leaked ~= nil then return 99 end leaked = 1 return %d", exit)
 			if r.Intn(5) == 0 {
-				script, exit = "return \"done\"", 1
+				script, exit = "if leaked ~= nil then return 99 end leaked = 1 return \"done\"", 1
 			}
 			script += fmt.Sprintf(" -- hook %d of case %d", k, hi)
 			bid, err := scratch.WriteBlob([]byte(script))
@@ -484,6 +485,63 @@ func runC20(c *runCtx) error {
 		}
 		c.add(fmt.Sprintf("(CHooks %s %s %d %s)", coqList(hterms), pterm, res, coqList(ran)), sideCase{Class: "hooks", Nontrivial: true, Key: keyOf(fmt.Sprint(hh, signerKey)),
 			Human: map[string]interface{}{"hooks": hh, "signer_key": signerKey, "result": fmt.Sprint(herr), "exit_codes": fmt.Sprint(codes), "staged_policy_assigns_all_hooks_to_everyone": staged}})
+	}
+	// ---- each hook is bounded by its own timeout, whatever its siblings declare ----
+	{
+		scratch := newMemStore()
+		loop, quick := "while true do end -- slow hook", "return 0 -- patient sibling"
+		b1, _ := scratch.WriteBlob([]byte(loop))
+		b2, _ := scratch.WriteBlob([]byte(quick))
+		t := &wFile{Version: 1, Signers: []int{2}}
+		t.Name = "targets"
+		t.Defs = map[int][]int{101: {4}}
+		t.Rules = []hRule{{Name: "protect-main", Patterns: []string{"git:" + refMain}, Pids: []int{101}, Thr: 1}}
+		pol := &wPolicy{RootVersion: 1, RootKeys: []int{1}, RootThr: 1, TargetsKeys: []int{2}, TargetsThr: 1, HasTargetsRole: true, RootSigners: []int{1}, Files: []*wFile{t},
+			Hooks: []wHook{{Name: "slow", Pids: []int{101}, BlobID: b1.String(), Timeout: 1}, {Name: "patient", Pids: []int{101}, BlobID: b2.String(), Timeout: 25}}}
+		b, err := buildWorld(&wWorld{Events: []wEvent{{Kind: "policy", Pol: pol, Signer: 1}}})
+		if err != nil {
+			return err
+		}
+		b.m.WriteBlob([]byte(loop))
+		b.m.WriteBlob([]byte(quick))
+		_, dir, err := newRealRepo(c, "c20-timeouts", true)
+		if err != nil {
+			return err
+		}
+		if err := exportObjects(b.m, dir); err != nil {
+			return err
+		}
+		for _, rv := range b.m.listRefs() {
+			if _, err := gitOut(dir, "update-ref", rv[0], rv[1]); err != nil {
+				return err
+			}
+		}
+		repo, err := gittuf.LoadRepository(dir)
+		if err != nil {
+			return err
+		}
+		rsl.VerifResetCache()
+		start := time.Now()
+		type hres struct {
+			codes map[string]int
+			err   error
+		}
+		ch := make(chan hres, 1)
+		go func() {
+			codes, herr := repo.InvokeHooksForStage(context.Background(), poolKeyN(4), tuf.HookStagePreCommit)
+			ch <- hres{codes, herr}
+		}()
+		stopped := true
+		var hr hres
+		select {
+		case hr = <-ch:
+		case <-time.After(15 * time.Second):
+			stopped = false
+		}
+		el := time.Since(start)
+		os.RemoveAll(filepath.Join(c.outDir, "repos", "c20-timeouts"))
+		c.add(fmt.Sprintf("(CTimeout 0 1000%%N %d%%N %s)", el.Milliseconds(), coqBool(stopped)), sideCase{Class: "timeout/hook with a 1 s timeout next to a hook with a 25 s timeout", Nontrivial: true, Key: keyOf("hook-timeouts"),
+			Human: map[string]interface{}{"hooks": "slow (timeout 1 s, loops forever), patient (timeout 25 s)", "elapsed_ms": el.Milliseconds(), "returned": stopped, "result": fmt.Sprint(hr.err), "exit_codes": fmt.Sprint(hr.codes)}})
 	}
 	// ---- exit codes ----
 	exits := []struct {
